@@ -2,4 +2,8 @@ import PqVerif.Props.C10
 #print axioms Pq.C10.perm_grad
 #print axioms Pq.C10.disp_grad_r
 #print axioms Pq.C10.disp_grad_phi
+#print axioms Pq.C10.disp_loop_closed_form
+#print axioms Pq.C10.sq_loop_closed_form
+#print axioms Pq.C10.sq_grad_r
+#print axioms Pq.C10.sq_grad_phi
 #print axioms Pq.C10.sqrtm_vjp
